@@ -1,6 +1,7 @@
 package main
 
 import (
+	"os"
 	"fmt"
 	"go/ast"
 	"os/exec"
@@ -32,6 +33,7 @@ var reErrcheck = regexp.MustCompile(`^([^:]+):(\d+):(\d+):\s*(.*)$`)
 func genDroppedReal() (string, error) {
 	cmd := exec.Command("errcheck", "-blank", "-ignoretests", "./deb/...", "./rpm/...", "./apk/...", "./arch/...", "./ipk/...", "./internal/cmd/...", "./files/...", "./internal/glob/...", ".")
 	cmd.Dir = *repo
+	cmd.Env = append(os.Environ(), "GOFLAGS=-mod=mod", "GOPROXY=off", "GOSUMDB=off", "GOTOOLCHAIN=local")
 	out, err := cmd.Output() // exit status 1 when something is reported
 	if err != nil {
 		if _, ok := err.(*exec.ExitError); !ok {
